@@ -10,7 +10,7 @@ import "github.com/RoaringBitmap/roaring"
 // exactly the sequential result in the introduction order, and a reader taken
 // between the two introductions sees exactly the first one (a prefix).
 //
-// vf:harness property=C05 cases=nseg:0..1;dp:1;nuA:0..1;ndA:0..1;nuB:0..1;ndB:0..1|nseg:2;dp:1;nuA:1;ndA:0;nuB:0;ndB:1 cases.thorough=nseg:0..2;dp:1;nuA:0..2;ndA:0..1;nuB:0..1;ndB:0..1|nseg:1;dp:2;nuA:1..2;ndA:0..1;nuB:0..1;ndB:0..1 goinline=1 chanslack=8 maxpaths=900000
+// vf:harness property=C05 cases=nseg:0..1;dp:1;nuA:0..1;ndA:0..1;nuB:0..1;ndB:0..1|nseg:2;dp:1;nuA:1;ndA:0;nuB:0;ndB:1 goinline=1 chanslack=8 maxpaths=900000
 // vf:bounds arbitrary valid root of nseg segments of dp docs; batches A and B with nu documents and nd deletes each, arbitrary (colliding) one-byte ids, ids within one batch distinct; optimistic obsoletes of each batch computed on the common root for an arbitrary subset of its segments; introduction order A,B or B,A
 // vf:assume the introducer applies one introduction at a time (single goroutine, rootLock); the real-time part of linearizability (Batch returns only after its introduction) needs the goroutine loops and is outside tier 1
 func VF_C05_TwoBatchesEitherOrder(nseg int, dp int, nuA int, ndA int, nuB int, ndB int) {
